@@ -70,12 +70,14 @@ where
     let mut masks = [0; 256];
 
     let mut bit = 1;
+    let mut accept = 0;
     for c in pattern {
         masks[*c.borrow() as usize] |= bit;
-        bit *= 2;
+        accept = bit;
+        bit <<= 1;
     }
 
-    (masks, bit / 2)
+    (masks, accept)
 }
 
 /// Iterator over start positions of matches.
